@@ -3,9 +3,11 @@ import AiocoapModel.Uri.Split
 # `Message.set_request_uri` — RFC 7252 §6.4 (C16)
 
 Model of `aiocoap/message.py` `set_request_uri` (default `set_uri_host=True`) *after* the
-three `fix:` commits of this property (port checked before the remote is built and an invalid
-IP literal wrapped into `MalformedUrlError`; the IPv4 test no longer calls `int("")`; see
-findings/C16.json), and of `UndecidedRemote.__new__` (`message.py`, "class UndecidedRemote").
+`fix:` commits of this property (port checked before the remote is built and an invalid
+IP literal wrapped into `MalformedUrlError`; the IPv4 test no longer calls `int("")` and wants
+RFC 3986 dec-octets; empty user info; a bracketed literal must be the complete host and its
+zone identifier unreserved; see findings/C16.json), and of `UndecidedRemote.__new__`
+(`message.py`, "class UndecidedRemote").
 
 What a successful call leaves behind is `Opts`: `remote.scheme`, `remote.hostinfo`,
 `opt.uri_host`, `opt.uri_path`, `opt.uri_query` (`opt.uri_port` is never set by it: the port
@@ -63,6 +65,7 @@ def fromParsed (ip : IpOracle) (p : Parsed) : Outcome :=
   | none => .malformed
   | some hn =>
     if hasUserinfo p.netloc then .malformed else
+    if !literalOk p.netloc then .malformed else
     match decodePath p.path, decodeQuery p.query with
     | some path, some query =>
       match portOf p.netloc with
